@@ -184,7 +184,7 @@ def step (st : St) (j : Json) : St × List String :=
   | "case" =>
     let pd := parsePD (jObj j "def")
     let st' : St := { pd := pd, creds := ((jArr j "creds").map parseCred).toArray, re := (jArr j "re").filterMap parseRe, live := true }
-    (st', [s!"case req={credentialsRequired pd}"])
+    (st', [s!"case req={credentialsRequired pd} wf={SR.wfL pd.srs}"])
   | "match" =>
     (st, [showMatch (pdMatch cfg (reOf st.re) st.pd (walletOf st (jObj j "wallet")))])
   | "build" =>
